@@ -2,6 +2,7 @@
 CONSTANTS
   MaxStarts = 3
   MaxDrops = 2
+  MaxForget = 2
   MaxDups = 2
   TieBreak = FALSE
   RoleByAddress = FALSE
